@@ -24,7 +24,13 @@ PROPS = {
         assumptions=["t.wf, hasType t v, View.inRange t (every subtree depth < 64: all lengths/limits <= 2^62)", "(serialize t v).length < 2^32 for Serialize of types with offsets (WriteOffset panics beyond)",
                      "round trip fully discharged (C02_decode_complete, C02_roundtrip_total in Props/C02b.lean)"]),
     "C03": P(3, ["C03"]),
-    "C04": P(4, ["C04"], stateful=True),
+    "C04": P(4, ["C04"], stateful=True,
+        rule="histories of typed mutations (set/app/pop/chg/setv/appv/appd/setd, through root views, nested and stale sub-views, copies) interleaved with reads (obs = root+bytes+value through getters, len, rd, blen): random long histories over random types, "
+             "all histories <= 3 (thorough 5) ops over 12 small types, boundary histories around chunk/power-of-two lengths; CORR vs the object machine Sim.stepM, PROP vs the plain value machine Sim.stepV; distinct = distinct (type shape, op shape, outcome) per position",
+        explanation="C04_step / C04_run: the object machine (views with hooks over backing trees, the model of the Go code) and the plain value machine produce the same outputs from Sim-related states for every operation, incl. write-back propagation through hook chains "
+                    "and stale sub-views (C04_propagation); C04_observation: root = htr, getters = value, bytes = serialize; C04_mk_*: all construction routes start related; C04_errors_*: an erring mutation of a root view leaves value and view unchanged",
+        assumptions=["TyGood = wf, View.inRange (depth < 64), noBoolSeries (known finding D3)", "OpOk: the new element / source view has the slot's type; Union.Change gets a selector < 256 and a nil value exactly for the None option (Change does not check the value's type: documented API); "
+                     "an observed object's encoding is < 2^32 bytes (ObsOk)", "reference semantics: a write-back into a slot that no longer exists is an error and leaves the ancestors unchanged (what a stale sub-view does)"]),
     "C05": P(5, ["C05"], stateful=True,
         explanation='Model H: any poke-free client leaves structure, content, denoted pure tree and observed root of every existing cell unchanged; old cells change only by unset-to-correct-root memo fills; a client run after another client gets its solo results (C05_frame, C05_only_memo_fill, C05_root_unchanged, C05_copy_detached[_flat]); C05_poke_counterexample shows the NoPoke premise (= the regenerated write-site inventory) is necessary',
         assumptions=['NoPoke: the view layer performs no in-place write into an existing node (tied to the code by the regenerated mutation-site inventory F2 and by snapshots re-verified from raw node structure after every step)', 'the memo field is invisible to clients'],
